@@ -54,6 +54,11 @@ impl TryFrom<DateTime<Utc>> for crate::Instant {
             .try_into()
             .map_err(|_| TimeError::InvalidTime)?;
         let nanos = time.timestamp_subsec_nanos();
+        if nanos >= 1_000_000_000 {
+            // chrono represents a leap second as a sub-second part of 10^9 or more,
+            // which is not a valid `Instant`
+            return Err(TimeError::InvalidTime);
+        }
         Ok(crate::Instant { seconds, nanos })
     }
 }
